@@ -228,7 +228,8 @@ def _jsonable(x):
 
 def crosscheck_unit(job):
     """CPython cross-check: the contract evaluated natively on sampled inputs of the real function."""
-    target, sc_index, count, seed = job
+    target, sc_index, count, seed = job[:4]
+    only_case = job[4] if len(job) > 4 else None
     _setup_path()
     load_specs()
     con = REGISTRY[target]
@@ -236,8 +237,12 @@ def crosscheck_unit(job):
     n = 0
     fails = []
     cap = count if con.bounded is None else 10 ** 9
+    if only_case is not None:
+        cap = count * 5
     try:
         for argvals in native.sample_inputs(con, sc, count, seed=seed):
+            if only_case is not None and not _in_case(con, only_case, argvals):
+                continue
             nr = native.native_eval(con, argvals)
             if not nr.in_domain:
                 continue
@@ -249,8 +254,11 @@ def crosscheck_unit(job):
                 break
     except NotImplementedError as e:
         return {"target": target, "case": sc_index, "evaluations": 0, "fails": [], "skipped": str(e)}
-    return {"target": target, "case": sc_index, "evaluations": n, "fails": fails,
-            "bounded": con.bounded}
+    b = con.bounded
+    if only_case is not None:
+        b = dict(con.bounded_cases[only_case])
+        b["scope"] = f"case '{only_case}': " + b.get("scope", "inputs of the contract's generator")
+    return {"target": target, "case": sc_index, "evaluations": n, "fails": fails, "bounded": b}
 
 
 # ------------------------------------------------------------------ property run
@@ -284,6 +292,9 @@ def run_property(pid, tier="quick", seed=0, jobs=None):
                 bjobs.append((con.target, i, 200 if tier == "quick" else 8000, seed))
             else:
                 for case in (list(con.cases) or [None]):
+                    if case is not None and case in con.bounded_cases:
+                        bjobs.append((con.target, i, 200 if tier == "quick" else 8000, seed, case))
+                        continue
                     if case is not None and case in exclusions.get(con.target, {}).get("*", []):
                         skipped_cases.append(f"{con.target} case:{case} (listed known finding: not explored, witness replayed)")
                         continue
@@ -293,6 +304,8 @@ def run_property(pid, tier="quick", seed=0, jobs=None):
     cross = []
     count = 50 if tier == "quick" else 2000
     cjobs = sorted({(j[0], j[1], count, seed) for j in jobs_list}) + bjobs
+    cjobs = [c for c in cjobs if REGISTRY[c[0]].bounded is not None or REGISTRY[c[0]].gen is not None
+             or not any(type(t).__name__ in ("Model", "Opaque") for t in sigcases(REGISTRY[c[0]])[c[1]].values())]
     if cjobs:
         with ProcessPoolExecutor(max_workers=nproc) as ex:
             futs = [ex.submit(gen_unit, j) for j in jobs_list]
@@ -550,9 +563,14 @@ def classify(v, known):
     """A violation is 'known' only if it names the listed obligation (function, clause) and, when
     the finding lists an input class, only inside that class (the engine proves the rest)."""
     name = v.get("name", "")
+    import fnmatch
     for k in known:
         if k.get("match") and k["match"] in name:
             return k
+        if k.get("labels") and v.get("kind") == "native":
+            lab = name.rsplit("/", 1)[-1]
+            if any(fnmatch.fnmatchcase(lab, pat) for pat in k["labels"]):
+                return k
         tgt, clause = k.get("target"), k.get("clause")
         if tgt and clause and name.startswith(tgt) and f"/{clause}" in name and not k.get("case"):
             return k
